@@ -124,6 +124,17 @@ def run_shard(shard, tier, seed, acc):
                     got = [r[1] if r[0] == 'ok' else r[1:] for r in res]
                     if got != exp:
                         acc.violation('bool-eq', {'logic': lg, 'b': b, 'c': c}, exp, got)
+                for name in ('True', 'False', 'TRUE', 'T', 'p', 'true_', 'Falsey', '_true'):
+                    # identifiers that merely resemble the constants are ordinary atoms
+                    ap = L.AtomicProposition(name)
+                    o = L.Bool(b)
+                    acc.ev(1, 1)
+                    res = [call(lambda: o == ap), call(lambda: ap == o), call(lambda: o != ap),
+                           call(lambda: len({o, ap})), call(lambda: ap in {o: 1})]
+                    exp = [False, False, True, 2, False]
+                    got = [r[1] if r[0] == 'ok' else r[1:] for r in res]
+                    if got != exp:
+                        acc.violation('bool-eq', {'logic': lg, 'b': b, 'atom': name}, exp, got)
                 for other in (0, 1, 'true', 'false', None, L.AtomicProposition('true'),
                               L.AtomicProposition('false')):
                     o = L.Bool(b)
@@ -170,7 +181,13 @@ def run_shard(shard, tier, seed, acc):
         acc.sample({'logic': lg, 'pool': len(P), 'example': spaces.fstr(P[len(P) // 2])})
         return
     if kind == 'cross':
-        core = P[:400]
+        # a mix: the smallest formulas, every n-ary / prefix-related shape, then a stride of the rest
+        nary_like = [t for t in P if t[0] in ('and', 'or') and len(t) >= 4][:120]
+        core = P[:160] + nary_like + special_forms(lg)[:60]
+        rest = [t for t in P[160:] if t not in set(core)]
+        core = core + rest[::max(1, len(rest) // 120)][:120]
+        seen_core = set()
+        core = [t for t in core if not (t in seen_core or seen_core.add(t))]
         objs = [(t, lib.build(t, L)) for t in core]
         for i, (t1, o1) in enumerate(objs):
             if i % shard[3] != shard[2]:
